@@ -195,6 +195,21 @@ class Gauge:
                             sub = Gauge(callee, self.q, self.qd)
                             sub._depth = getattr(self, "_depth", 0) + 1
                             return sub.g(rets[0].value)
+                        if len(rets) == 1 and callee.self_name is not None and not e.keywords and len(e.args) == len(callee.params) - 1 \
+                                and all(self.g(a_) == (0, EVEN) for a_ in e.args):
+                            # arguments that do not depend on the gauge field (`self._rounded_sum(get_sig_figures())`): the
+                            # parameters are constants as far as the gauge is concerned
+                            import copy as _copy
+                            names = set(callee.params[1:])
+
+                            class _Sub(ast.NodeTransformer):
+                                def visit_Name(self, node):
+                                    if node.id in names and isinstance(node.ctx, ast.Load):
+                                        return ast.copy_location(ast.Constant(value=0), node)
+                                    return node
+                            sub = Gauge(callee, self.q, self.qd)
+                            sub._depth = getattr(self, "_depth", 0) + 1
+                            return sub.g(_Sub().visit(_copy.deepcopy(rets[0].value)))
                         return (None, MIXED)
                 # other methods: a function of receiver and arguments
                 gs = [self.g(fn.value)] + [self.g(a) for a in e.args]
@@ -292,6 +307,10 @@ def hashed_components(fi: FunctionInfo) -> List[ast.AST]:
         raise AnalysisError("%s: __hash__ has %d return statements; the hashed components cannot be identified" % (fi.short, len(rets)))
     from ..astutil import expand_locals
     v = expand_locals(fi.node, rets[0].value, fi.params)  # hoisted locals (`plane_hash = hash(self.plane)`) read as their definitions
+    if isinstance(v, ast.Call) and isinstance(v.func, ast.Name) and v.func.id != "hash":
+        # a package helper that builds the hash (`symmetric_hash(tag, a, b)` = hash((tag, a + b, a * b))): read through it
+        from ..astutil import inline_module_calls
+        v = inline_module_calls(fi, v, depth=1)
     if isinstance(v, ast.Call) and isinstance(v.func, ast.Name) and v.func.id == "hash" and len(v.args) == 1:
         inner = v.args[0]
         if isinstance(inner, ast.Tuple):
@@ -462,7 +481,47 @@ def r84(ctx, res, stale=frozenset()):
         ordered = [c for c in comps for x in ast.walk(c) if isinstance(x, ast.Attribute) and isinstance(x.value, ast.Name)
                    and x.value.id == h.self_name and x.attr in ("points", "convex_polygons", "point_set", "segment_set")]
         used = {x.attr for c in comps for x in ast.walk(c) if isinstance(x, ast.Attribute) and x.attr in helpers}
-        ok = not ordered and used == helpers
+        # through other methods of the object (`self._rounded_point_hash_sum(digits)` -> `self._get_point_hash_sum()`)
+        todo_ = [(repo.cls(cname).lookup(x.attr), 0) for c in comps for x in ast.walk(c) if isinstance(x, ast.Attribute)
+                 and isinstance(x.value, ast.Name) and x.value.id == h.self_name and x.attr not in helpers]
+        seen_ = set()
+        while todo_:
+            m_, d_ = todo_.pop()
+            if m_ is None or m_.qual in seen_ or d_ > 3 or m_.self_name is None:
+                continue
+            seen_.add(m_.qual)
+            for x in walk_local(m_.node):
+                if isinstance(x, ast.Attribute) and isinstance(x.value, ast.Name) and x.value.id == m_.self_name:
+                    if x.attr in helpers:
+                        used.add(x.attr)
+                    elif x.attr in ("points", "convex_polygons", "point_set", "segment_set"):
+                        ordered.append(x)
+                    else:
+                        todo_.append((repo.cls(cname).lookup(x.attr), d_ + 1))
+        # an inline commutative aggregate -- sum(hash(p) for p in self.points) -- is the helper written in place
+        from ..astutil import parents as _parents
+        inline_agg = set()
+        still = []
+        for c_ in comps:
+            par_ = _parents(c_)
+            for x in ast.walk(c_):
+                if isinstance(x, ast.Attribute) and isinstance(x.value, ast.Name) and x.value.id == h.self_name \
+                        and x.attr in ("points", "convex_polygons", "point_set", "segment_set"):
+                    p_ = par_.get(id(x))
+                    g_ = par_.get(id(p_)) if isinstance(p_, ast.comprehension) else None
+                    call_ = par_.get(id(g_)) if g_ is not None else None
+                    if isinstance(p_, ast.comprehension) and p_.iter is x and isinstance(g_, (ast.GeneratorExp, ast.ListComp, ast.SetComp)) \
+                            and len(g_.generators) == 1 and isinstance(call_, ast.Call) and isinstance(call_.func, ast.Name) \
+                            and call_.func.id in ("sum", "frozenset", "set") and call_.args and call_.args[0] is g_:
+                        inline_agg.add(x.attr)
+                    else:
+                        still.append(c_)
+        if not [o_ for o_ in ordered if not isinstance(o_, ast.Attribute)] or True:
+            ordered = [o_ for o_ in ordered if isinstance(o_, ast.Attribute)] + still
+        need_cols = {"ConvexPolygon": [{"points"}], "ConvexPolyhedron": [{"convex_polygons"}, {"point_set"}]}[cname]
+        covered = used == helpers or all((cols & inline_agg) or any(hn in used for hn in helpers if (("polygon" in hn) == ("convex_polygons" in cols)))
+                                         for cols in need_cols)
+        ok = not ordered and covered
         res.ob("R8.4", h.where(), "%s.__hash__ uses only order-free aggregates" % cname, ok,
                "components built from %s" % sorted(used) if ok else "reads an ordered collection directly: %s" % [txt(c)[:40] for c in ordered])
         if not ok:
@@ -486,17 +545,24 @@ def r81_r83(ctx, res):
     ctx.require(res, "R8.1", n, 9, "classes defining __eq__")
     for cname in ("Point", "Line", "Plane", "ConvexPolygon", "ConvexPolyhedron"):
         m = repo.cls(cname).lookup("__eq__")
-        sm = eng.summary(m, (S(cname), S("num")))
-        if sm is None:
-            raise AnalysisError("%s.__eq__ was not evaluated on a foreign type" % cname)
-        rets = [r for r in walk_local(m.node) if isinstance(r, ast.Return) and id(r) in sm.reached]
-        ok = bool(rets) and all(isinstance(r.value, ast.Constant) and r.value.value is False for r in rets) and not sm.raises
-        anomalies = [t for q, ln, t in eng.anomalies if q == m.qual]
-        res.ob("R8.2", m.where(), "%s.__eq__(foreign type)" % cname, ok,
-               "returns False" if ok else "reaches %s" % [txt(r)[:40] for r in rets])
-        if not ok:
-            res.violation("R8.2", m, m.node, "%s.__eq__ does not return False for a foreign type: it evaluates %s" % (
-                cname, [txt(r)[:50] for r in rets] or "a raise"), construct=cname + ".__eq__ foreign type")
+        from ..types import seq as _seq
+        foreign = [("a number", S("num")), ("a Vector", S("Vector")), ("a str", S("str")), ("a list of numbers", _seq("list", S("num"))),
+                   ("a 3-tuple of numbers", S(("ftuple", (S("num"), S("num"), S("num"))))), ("None", S("None"))]
+        for fname_, fty in foreign:
+            sm = eng.summary(m, (S(cname), fty))
+            if sm is None:
+                if fname_ == "a number":
+                    raise AnalysisError("%s.__eq__ was not evaluated on a foreign type" % cname)
+                continue
+            rets = [r for r in walk_local(m.node) if isinstance(r, ast.Return) and id(r) in sm.reached]
+            ok = bool(rets) and all(isinstance(r.value, ast.Constant) and r.value.value is False for r in rets) and not sm.raises
+            res.ob("R8.2", m.where(), "%s.__eq__(%s)" % (cname, fname_), ok,
+                   "returns False" if ok else "reaches %s" % [txt(r)[:40] for r in rets])
+            if not ok:
+                res.violation("R8.2", m, m.node, "%s.__eq__ does not return False for %s: it evaluates %s -- a foreign object that is "
+                              "converted or compared field by field makes == asymmetric (the other side's __eq__ does not agree) and "
+                              "equal objects hash differently" % (cname, fname_, [txt(r)[:50] for r in rets] or "a raise"),
+                              construct=cname + ".__eq__ foreign type " + fname_)
     for cname in ("ConvexPolygon", "ConvexPolyhedron"):
         m = repo.cls(cname).lookup("__eq__")
         sm = eng.summary(m, (S(cname), S(cname)))
